@@ -4,6 +4,8 @@ mod c19;
 mod c20;
 mod c04;
 mod c17;
+mod c10;
+mod tables;
 mod runner;
 
 use std::path::PathBuf;
@@ -17,6 +19,10 @@ fn main() {
         std::process::exit(2);
     }
     let cmd = argv[1].clone();
+    if cmd == "tables" {
+        print!("{}", tables::render());
+        return;
+    }
     let mut args = Args { tier: "quick".into(), seed: 0, out: PathBuf::from("."), extra: vec![] };
     let mut i = 2;
     while i < argv.len() {
@@ -46,6 +52,7 @@ fn main() {
         "c20" => c20::run(&args),
         "c04" => c04::run(&args),
         "c17" => c17::run(&args),
+        "c10" => c10::run(&args),
         "run" => {
             // vh run file.bas [stdin-file]: prints the outcome of one program (debugging aid, used by replays)
             let src = std::fs::read_to_string(&args.extra[0]).unwrap();
